@@ -285,6 +285,8 @@ def b_int(m, args, kw, node):
 @builtin("float")
 def b_float(m, args, kw, node):
     a = m.force(args[0], node)
+    if isinstance(a, NanReal):
+        return a
     if isinstance(a, bool):
         return Fraction(int(a))
     if isinstance(a, (int, Fraction)):
@@ -626,8 +628,8 @@ def s_ghost(m, args, kw, node):
 @specfn("is_nan")
 def s_is_nan(m, args, kw, node):
     a = m.force(args[0], node)
-    if isinstance(a, SObj) and a.tag == "nan":
-        return True
+    if isinstance(a, NanReal):
+        return a.isnan if isinstance(a.isnan, bool) else m.mk(a.isnan, "bool")
     return False
 
 
@@ -1208,3 +1210,21 @@ def s_forall_keys_kept(m, args, kw, node):
     ev = z3.BoolVal(ev) if isinstance(ev, bool) else ev
     body = z3.Implies(k != m.z(rk), z3.And(new.has(k) == old.has(k), z3.Implies(old.has(k), ev)))
     return m.mk(z3.ForAll([k], body), "bool")
+
+
+@specfn("check")
+def s_check(m, args, kw, node):
+    name = args[0]
+    t = m.truth(args[1], node)
+    pref = getattr(m, "check_prefix", "")
+    m.check("%s/check[%s]" % (pref, name), t, "check")
+    # after a check the property is assumed (standard assert-then-assume), so that one
+    # failure is not reported again by every later check on the same path
+    m.assume(t)
+    return True
+
+
+@specfn("assume")
+def s_assume(m, args, kw, node):
+    m.assume(m.truth(args[0], node))
+    return True
